@@ -69,6 +69,19 @@ func TestC07(t *testing.T) {
 		}
 		idx++
 	}
+	// the handler parked in SendMsg behind the stalled writer; many concurrent streams
+	for _, sc := range c07StalledSendScenarios(thorough()) {
+		if want(idx) {
+			runCwScenario(t, idx, "c07", sc, em)
+		}
+		idx++
+	}
+	for _, sc := range c07ScaleScenarios(thorough()) {
+		if want(idx) {
+			runCwScenario(t, idx, "c07", sc, em)
+		}
+		idx++
+	}
 	// regression of D-07s with the forced schedule (the select of the loop's Read is random: 40 repetitions)
 	for i := 0; i < 40; i++ {
 		if want(idx) {
